@@ -458,16 +458,16 @@ func (doc *T) derefPaths(paths map[string]*PathItem, refNameResolver RefNameReso
 			// a callback may lead back to a path item that is being internalized
 			continue
 		}
-		if ops.Ref != "" && !parentIsExternal && strings.HasPrefix(ops.Ref, "#/") {
-			// a reference to a path item of this document stays a reference: its target is
-			// internalized where it is defined, and inlining it could close a cycle
-			continue
-		}
-		if rootRef := doc.rootPathOfCopy(ops); ops.Ref != "" && rootRef != "" {
-			// a referenced path item that leads back to a path of this document (a callback naming the
-			// path that declares it, in an external file): inlining it would close a pointer cycle
+		rootRef, isCopy := doc.rootPathOf(ops)
+		if isCopy && ops.Ref != "" && doc.visited.activePath[rootRef] > 0 {
+			// a referenced path item that leads back to a path of this document which is being
+			// internalized (a callback naming the path that declares it): inlining it would close
+			// a pointer cycle, so it stays a reference to that path
 			ops.Ref = rootRef
 			continue
+		}
+		if rootRef != "" {
+			doc.visited.activePath[rootRef]++
 		}
 		pathIsExternal := parentIsExternal || isExternalRef(ops.Ref, false)
 		// inline full operations
@@ -503,21 +503,23 @@ func (doc *T) derefPaths(paths map[string]*PathItem, refNameResolver RefNameReso
 				}
 			}
 		}
+		if rootRef != "" {
+			doc.visited.activePath[rootRef]--
+		}
 	}
 }
 
-// rootPathOfCopy returns a reference to the path of this document whose path item shares its
-// operations with pathItem, when pathItem is not that path item itself.
-func (doc *T) rootPathOfCopy(pathItem *PathItem) string {
+// rootPathOf returns a reference to the path of this document whose path item shares its
+// operations with pathItem ("" when there is none), and whether pathItem is a copy of that path
+// item rather than the path item itself.
+func (doc *T) rootPathOf(pathItem *PathItem) (ref string, isCopy bool) {
 	for _, op := range pathItem.Operations() {
 		if ref, ok := doc.visited.rootPath[op]; ok {
-			if doc.Paths != nil && doc.Paths.Value(unescapeRefString(strings.TrimPrefix(ref, "#/paths/"))) == pathItem {
-				return ""
-			}
-			return ref
+			isCopy = doc.Paths == nil || doc.Paths.Value(unescapeRefString(strings.TrimPrefix(ref, "#/paths/"))) != pathItem
+			return ref, isCopy
 		}
 	}
-	return ""
+	return "", false
 }
 
 // InternalizeRefs removes all references to external files from the spec and moves them
@@ -536,6 +538,22 @@ func (doc *T) InternalizeRefs(ctx context.Context, refNameResolver func(*T, Comp
 
 	if refNameResolver == nil {
 		refNameResolver = DefaultRefNameResolver
+	}
+
+	// the path items that own their operations first, then those that are references to them
+	rootPaths := doc.Paths.Map()
+	for _, owners := range []bool{true, false} {
+		for _, name := range componentNames(rootPaths) {
+			pathItem := rootPaths[name]
+			if pathItem == nil || (pathItem.Ref == "") != owners {
+				continue
+			}
+			for _, op := range pathItem.Operations() {
+				if _, ok := doc.visited.rootPath[op]; !ok {
+					doc.visited.rootPath[op] = "#/paths/" + strings.ReplaceAll(strings.ReplaceAll(name, "~", "~0"), "/", "~1")
+				}
+			}
+		}
 	}
 
 	if components := doc.Components; components != nil {
@@ -606,13 +624,5 @@ func (doc *T) InternalizeRefs(ctx context.Context, refNameResolver func(*T, Comp
 		}
 	}
 
-	for name, pathItem := range doc.Paths.Map() {
-		if pathItem == nil {
-			continue
-		}
-		for _, op := range pathItem.Operations() {
-			doc.visited.rootPath[op] = "#/paths/" + strings.ReplaceAll(strings.ReplaceAll(name, "~", "~0"), "/", "~1")
-		}
-	}
 	doc.derefPaths(doc.Paths.Map(), refNameResolver, false)
 }
